@@ -85,6 +85,13 @@ impl Amf0Value {
     }
 }
 
+/// Objects and arrays can be nested inside each other, and every level of nesting uses up some of
+/// the stack while reading or writing.  Real world RTMP traffic only nests a handful of levels
+/// deep, so anything past this limit is treated as malformed by the deserializer (instead of
+/// risking a stack overflow on untrusted input) and is refused by the serializer (as it could not
+/// be read back).
+const MAX_NESTING_DEPTH: usize = 128;
+
 mod markers {
     pub const NUMBER_MARKER: u8 = 0;
     pub const BOOLEAN_MARKER: u8 = 1;
